@@ -413,6 +413,12 @@ def _run_check(spec, tier, seed, replay=None):
 
     # 2. prove
     pr = prove(spec["props"], leanchecker=(tier == "thorough"))
+    if facts_status == "unreadable":
+        # <Id>_facts_ok was checked against the committed Expected copy, not against what the source says now: the
+        # theorems are no longer about the current code, so that obligation does not count as discharged.
+        pr["failed_theorems"] = list(pr["failed_theorems"]) + [f"{pid}_facts_ok (facts of the current source unreadable)"]
+        pr["errors"] = list(pr["errors"]) + ["facts tie unreadable: " + " ".join(facts_detail.split())[:400]]
+        pr["discharged"] = max(0, pr["discharged"] - 1)
     proof_broken = pr["discharged"] != pr["obligations"] or bool(pr["failed_theorems"])
 
     # 3. correspond: corpus first, then generated
